@@ -158,35 +158,44 @@ def mapRunes (f : Font) : List Nat → PM (List Nat)
       let more ← mapRunes f rest
       pure (gid :: more)
 
+/-- read an item and keep it if `p` holds, otherwise push it back (`goto done` in
+`readGlyphList`: `p.backlog = append(p.backlog, item)`) -/
+def takeIf (p : Tok → Bool) : PM (Option Tok) := do
+  let t ← readItem
+  if p t then pure (some t) else do pushBack t; pure none
+
+/-- the items `readGlyphList` consumes: a known glyph name, a string, an integer, a hyphen -/
+def glyphItem (f : Font) (t : Tok) : Bool :=
+  (t.typ == tIdentifier && (f.byName t.bytes).isSome) || t.typ == tString ||
+    t.typ == tInteger || t.typ == tHyphen
+
 def readGlyphListLoop (f : Font) : Nat → List Nat → Bool → PM (List Nat)
   | 0, _, _ => throw { line := 0, cls := errFuel }
   | fuel + 1, res, hy => do
-    let item ← readItem
-    let done : PM (List Nat) := do
-      pushBack item
-      if hy then fatal "hyphenated range not terminated" else pure res
-    if item.typ == tIdentifier then
-      match f.byName item.bytes with
-      | none => done
-      | some gid =>
-        let (res', hy') ← addGids [gid] res hy
-        readGlyphListLoop f fuel res' hy'
-    else if item.typ == tString then
-      let next ← mapRunes f (decodeString item)
-      let (res', hy') ← addGids next res hy
-      readGlyphListLoop f fuel res' hy'
-    else if item.typ == tInteger then
-      match atoi item.bytes with
-      | some (Int.ofNat x) =>
-        if x ≥ 65536 || x ≥ f.numGlyphs then fatal "invalid glyph id"
-        else
-          let (res', hy') ← addGids [x] res hy
+    match ← takeIf (glyphItem f) with
+    | none => if hy then fatal "hyphenated range not terminated" else pure res
+    | some item =>
+      if item.typ == tIdentifier then
+        match f.byName item.bytes with
+        | none => pure res -- not reached: `glyphItem` holds
+        | some gid =>
+          let (res', hy') ← addGids [gid] res hy
           readGlyphListLoop f fuel res' hy'
-      | _ => fatal "invalid glyph id"
-    else if item.typ == tHyphen then
-      if hy then fatal "consecutive hyphens in glyph list"
-      else readGlyphListLoop f fuel res true
-    else done
+      else if item.typ == tString then
+        let next ← mapRunes f (decodeString item)
+        let (res', hy') ← addGids next res hy
+        readGlyphListLoop f fuel res' hy'
+      else if item.typ == tInteger then
+        match atoi item.bytes with
+        | some (Int.ofNat x) =>
+          if x ≥ 65536 || x ≥ f.numGlyphs then fatal "invalid glyph id"
+          else
+            let (res', hy') ← addGids [x] res hy
+            readGlyphListLoop f fuel res' hy'
+        | _ => fatal "invalid glyph id"
+      else
+        if hy then fatal "consecutive hyphens in glyph list"
+        else readGlyphListLoop f fuel res true
 
 def readGlyphList (f : Font) (fuel : Nat) : PM (List Nat) := readGlyphListLoop f fuel [] false
 
@@ -240,13 +249,22 @@ def header (fuel : Nat) : PM Nat := do
   let _ ← optional [tEOL]
   readLookupFlags fuel
 
+/-- subtables of one lookup, separated by `||` (and an optional line break) -/
+def subtablesLoop (one : PM Subtable) : Nat → List Subtable → PM (List Subtable)
+  | 0, _ => throw { line := 0, cls := errFuel }
+  | fuel + 1, acc => do
+    let st ← one
+    if !(← optional [tOr]) then pure (acc ++ [st])
+    else do
+      let _ ← optional [tEOL]
+      subtablesLoop one fuel (acc ++ [st])
+
 def zipInsert : List Nat → List Nat → List (Nat × Nat) → PM (List (Nat × Nat))
   | g :: gs, t :: ts, m =>
     if (aget m g).isSome then fatal "duplicate mapping" else zipInsert gs ts (m ++ [(g, t)])
   | _, _, m => pure m
 
-def readGsub1 (f : Font) (fuel : Nat) : PM Lookup := do
-  let flags ← header fuel
+def gsub1Sub (f : Font) (fuel : Nat) : PM Subtable := do
   let res ← pairsLoop (fun (m : List (Nat × Nat)) => do
       let from_ ← readGlyphList f fuel
       let _ ← required tArrow
@@ -258,13 +276,15 @@ def readGsub1 (f : Font) (fuel : Nat) : PM Lookup := do
     let cov := keysAsc res
     let deltas := res.map fun p => (p.2 + 65536 - p.1) % 65536
     let d0 := deltas.headD 0
-    let sub :=
-      if deltas.all (· == d0) then Subtable.gsub1_1 cov d0
-      else Subtable.gsub1_2 cov (cov.map fun g => (aget res g).getD 0)
-    pure { typ := 1, flags := flags, subtables := [sub] }
+    pure (if deltas.all (· == d0) then Subtable.gsub1_1 cov d0
+      else Subtable.gsub1_2 cov (cov.map fun g => (aget res g).getD 0))
 
-def readGsub2 (f : Font) (fuel : Nat) : PM Lookup := do
+def readGsub1 (f : Font) (fuel : Nat) : PM Lookup := do
   let flags ← header fuel
+  let subs ← subtablesLoop (gsub1Sub f fuel) fuel []
+  pure { typ := 1, flags := flags, subtables := subs }
+
+def gsub2Sub (f : Font) (fuel : Nat) : PM Subtable := do
   let data ← pairsLoop (fun (m : List (Nat × List Nat)) => do
       let from_ ← readGlyphList f fuel
       if from_.length != 1 then fatal "expected single glyph"
@@ -282,11 +302,14 @@ def readGsub2 (f : Font) (fuel : Nat) : PM Lookup := do
   if data.isEmpty then fatal "no substitutions found"
   else
     let cov := keysAsc data
-    pure { typ := 2, flags := flags,
-           subtables := [.gsub2_1 cov (cov.map fun g => (aget data g).getD [])] }
+    pure (.gsub2_1 cov (cov.map fun g => (aget data g).getD []))
 
-def readGsub3 (f : Font) (fuel : Nat) : PM Lookup := do
+def readGsub2 (f : Font) (fuel : Nat) : PM Lookup := do
   let flags ← header fuel
+  let subs ← subtablesLoop (gsub2Sub f fuel) fuel []
+  pure { typ := 2, flags := flags, subtables := subs }
+
+def gsub3Sub (f : Font) (fuel : Nat) : PM Subtable := do
   let res ← pairsLoop (fun (m : List (Nat × List Nat)) => do
       let from_ ← readGlyphList f fuel
       if from_.length != 1 then fatal "expected single glyph"
@@ -300,16 +323,19 @@ def readGsub3 (f : Font) (fuel : Nat) : PM Lookup := do
   if res.isEmpty then fatal "no substitutions found"
   else
     let cov := keysAsc res
-    pure { typ := 3, flags := flags,
-           subtables := [.gsub3_1 cov (cov.map fun g => (aget res g).getD [])] }
+    pure (.gsub3_1 cov (cov.map fun g => (aget res g).getD []))
+
+def readGsub3 (f : Font) (fuel : Nat) : PM Lookup := do
+  let flags ← header fuel
+  let subs ← subtablesLoop (gsub3Sub f fuel) fuel []
+  pure { typ := 3, flags := flags, subtables := subs }
 
 /-- `data[key] = append(data[key], lig)` -/
 def appendAt {β : Type} (m : List (Nat × List β)) (k : Nat) (v : β) : List (Nat × List β) :=
   if (aget m k).isSome then m.map fun p => if p.1 == k then (p.1, p.2 ++ [v]) else p
   else m ++ [(k, [v])]
 
-def readGsub4 (f : Font) (fuel : Nat) : PM Lookup := do
-  let flags ← header fuel
+def gsub4Sub (f : Font) (fuel : Nat) : PM Subtable := do
   let data ← pairsLoop (fun (m : List (Nat × List (List Nat × Nat))) => do
       let from_ ← readGlyphList f fuel
       if from_.isEmpty then
@@ -321,8 +347,12 @@ def readGsub4 (f : Font) (fuel : Nat) : PM Lookup := do
         if to.length != 1 then fatal "expected single glyph"
         else pure (appendAt m (from_.headD 0) (from_.drop 1, to.headD 0))) fuel []
   let cov := keysAsc data
-  pure { typ := 4, flags := flags,
-         subtables := [.gsub4_1 cov (cov.map fun g => (aget data g).getD [])] }
+  pure (.gsub4_1 cov (cov.map fun g => (aget data g).getD []))
+
+def readGsub4 (f : Font) (fuel : Nat) : PM Lookup := do
+  let flags ← header fuel
+  let subs ← subtablesLoop (gsub4Sub f fuel) fuel []
+  pure { typ := 4, flags := flags, subtables := subs }
 
 /-- outcome of the forms this file does not model: the driver reports `unmodelled` -/
 def unmodelled : String := "model-unmodelled-form"
